@@ -240,6 +240,7 @@ func (e *Engine) evalSpec(env *SpecEnv, x *SExpr) Value {
 		// evaluate the body on a scratch state so that facts assumed while
 		// building terms (which may mention bound variables) do not leak
 		scratch := ne.st.clone()
+		scratch.assumeTo = nil // inside old(...): keep the facts here, they are sorted below
 		ne2 := *ne
 		ne2.st = scratch
 		npc := len(scratch.pc)
